@@ -132,7 +132,12 @@ func TestReverseCanonical(t *testing.T) {
 					labels = append(labels, "excluded_saturating_time")
 					stats.NoteAdd(check, "excluded_saturating_time_fields", int64(excused))
 				}
-				if !bytes.Equal(re.Bytes, patched) {
+				if !bytes.Equal(re.Bytes, patched) && serixgen.HasSaturatedTime(c.Root, dec.Value) && (mut.Label == "time_beyond_int64" || mut.Label == "byte_havoc" || mut.Label == "raw_random" || mut.Label == "spliced_random_tail") {
+					// a stamp beyond the int64 range inside a collection the encoder sorts moves when it saturates, so the
+					// field-by-field excuse cannot line the two encodings up: the input is outside the property's domain
+					labels = append(labels, "excluded_saturating_time_reordered")
+					stats.NoteAdd(check, "excluded_saturating_time_cases", 1)
+				} else if !bytes.Equal(re.Bytes, patched) {
 					ex["reencoded"] = hex.EncodeToString(re.Bytes)
 					violation(rt, check, c, v, ex, "accepted input is not canonical: re-encoding yields different bytes")
 				}
